@@ -66,6 +66,10 @@ pub struct Seg {
     /// Ethernet destination + source address (12 bytes) used when the segment is Ethernet-framed; empty = default
     #[serde(default)]
     pub eth: Vec<u8>,
+    /// link-layer bytes after the IP packet: 0 = none, 1 = zero padding up to the 60-byte Ethernet minimum (what a
+    /// capture on the wire shows for short segments), n >= 2 = n-1 arbitrary trailer bytes (FCS, vendor trailers)
+    #[serde(default)]
+    pub trailer: u8,
 }
 
 impl Seg {
@@ -87,6 +91,7 @@ impl Seg {
             flow_label: 0,
             urg_ptr: 0,
             eth: vec![],
+            trailer: 0,
         }
     }
 }
@@ -209,6 +214,21 @@ pub fn frame(s: &Seg, framing: Framing) -> Vec<u8> {
     let mut f = wrap(&ip, s.src.is_v4(), framing);
     if framing == Framing::Ethernet && s.eth.len() == 12 {
         f[..12].copy_from_slice(&s.eth);
+    }
+    if matches!(framing, Framing::Ethernet | Framing::Vlan { .. }) {
+        match s.trailer {
+            0 => {}
+            1 => {
+                while f.len() < 60 {
+                    f.push(0);
+                }
+            }
+            n => {
+                for k in 0..(n - 1) {
+                    f.push(0xa5 ^ k.wrapping_mul(37));
+                }
+            }
+        }
     }
     f
 }
